@@ -125,6 +125,11 @@ class ProgGen:
         ret_inner = P("Response")
         if kind == "query":
             ret_inner = gen_type(rng, generics)
+            if rng.random() < 0.2:
+                # response types that are themselves framework / chain types (a query may return already-encoded
+                # bytes, a response, an address ...): still the JSON encoding of the returned value is what the caller gets
+                ret_inner = rng.choice([P("Binary"), PP("cw_std", "Binary"), P("Vec", P("Binary")), P("Option", P("Binary")),
+                                        P("Response"), P("Empty"), P("Addr"), P("Coin"), P("Vec", P("u8"))])
         ret = P(rng.choice(["StdResult"]), ret_inner) if not self_prefix else P("Result", ret_inner, PP("Self", "Error"))
         if kind == "query" and rng.random() < 0.15:
             # explicit response type: with an aliased result (the documented use), or next to a literal Result of another type
